@@ -44,7 +44,7 @@ def message_registry(repo: Repo) -> dict[int, tuple[str, FuncInfo]]:
 def send_sites(repo: Repo) -> list[tuple[FuncInfo, ast.Call, object, ast.AST | None]]:
     """(function, call, folded message code, payload expr) for every call of BaseGateway._send"""
     out = []
-    for fi in repo.funcs.values():
+    for fi in repo.scan_funcs():
         for c in repo.calls_in(fi):
             if any(t.qualname == f"{GB}.BaseGateway._send" for t in repo.resolve_call(c, fi)):
                 code = repo.fold_in(c.args[0], fi) if c.args else UNKNOWN
@@ -84,7 +84,7 @@ def receiver_context(repo: Repo) -> set[str]:
 def callback_invocations(repo: Repo) -> list[tuple[FuncInfo, ast.Call, str]]:
     """calls of a user-supplied channel callback: (function, call, origin)"""
     out = []
-    for fi in repo.funcs.values():
+    for fi in repo.scan_funcs():
         if fi.module.name != GB:
             continue
         names: dict[str, str] = {}
